@@ -116,7 +116,10 @@ def compare(node, d, path="decl"):
         if node.init is not None:
             return "%s: default value %r recorded, none written" % (path, node.init)
     else:
-        if str(node.init) != d.init and not (isinstance(node.init, float) and float(d.init) == node.init):
+        octal = re.fullmatch(r"0[0-7]+", d.init)  # a C octal literal: the value the compiler reads is what is recorded
+        if octal and node.init == int(d.init, 8):
+            pass
+        elif str(node.init) != d.init and not (isinstance(node.init, float) and float(d.init) == node.init):
             return "%s: default value %r, written %r" % (path, node.init, d.init)
     return None
 
